@@ -404,11 +404,11 @@ impl Prop for C02 {
         Meta {
             id: "C02",
             level: "exploration",
-            rule: "exhaustive product over parsed messages: 32 header-flag sets x both framings x payload sizes {0..12,255,256,4096,max} and every size 0..max for 2 (thorough: all 32) flag sets x 3 id sets x reception corners (secs {0,1.6e9,u32::MAX} x micros {0,999999}) x timestamp {0,1,u32::MAX} x mcnt {0,255}; each message is parsed from independently built bytes, written with to_write, re-read with parse_dlt_with_storage_header (must consume exactly the written bytes and agree on ecu, reception time, timestamp and its presence, mcnt, byte-order flag, extended header, payload) and written again (byte-identical). Stream family: all sequences of <= 5 (thorough 6) messages from a 10-variant pool incl. payloads with embedded frame markers, exported back-to-back, re-read with DltMessageIterator (same messages in order, nothing skipped), exported again (byte-identical). File family: a 600 KB normal-form file is read the way `adlt convert` reads it (LowMarkBufReader, 512 KiB, low mark = the repository's DLT_MIN_PARSER_LOOKAHEAD_SIZE and DLT_MAX_STORAGE_MSG_SIZE) with a near-maximum message starting at every buffered-byte count around the low mark; every message must be exported, byte-identical. Non-trivial = export drops a header field (ECU/session id move) or payload > 255 bytes.".into(),
+            rule: "exhaustive product over parsed messages: 32 header-flag sets x both framings x payload sizes {0..12,255,256,4096,max} and every size 0..max for 2 (thorough: all 32) flag sets x 3 id sets x reception corners (secs {0,1.6e9,u32::MAX} x micros {0,999999}) x timestamp {0,1,u32::MAX} x mcnt {0,255}; each message is parsed from independently built bytes, written with to_write, re-read with parse_dlt_with_storage_header (must consume exactly the written bytes and agree on ecu, reception time, timestamp and its presence, mcnt, byte-order flag, extended header, payload) and written again (byte-identical). ECU-id family: all 256 ids over the bytes {00,'E',7f,ff} (NUL in every position, bytes after a NUL) as header and as storage ECU id x 32 flag sets x both framings. Stream family: all sequences of <= 5 (thorough 6) messages from a 10-variant pool incl. payloads with embedded frame markers, exported back-to-back, re-read with DltMessageIterator (same messages in order, nothing skipped), exported again (byte-identical). File family: a 600 KB normal-form file is read the way `adlt convert` reads it (LowMarkBufReader, 512 KiB, low mark = the repository's DLT_MIN_PARSER_LOOKAHEAD_SIZE and DLT_MAX_STORAGE_MSG_SIZE) with a near-maximum message starting at every buffered-byte count around the low mark; every message must be exported, byte-identical. Non-trivial = export drops a header field (ECU/session id move) or payload > 255 bytes.".into(),
             assumptions: vec!["storage micros < 10^6 (premise of the property)".into(), "CLI level: adlt convert -o on files with a near-maximum message at the start / inside / at the end (family cli_export); the option product is C14's".into()],
             budget_s: (90, 900),
             workers: 0,
-            required_landmarks: vec!["export_drops_header_field(WEID/WSID)", "serial_source", "max_size", "stream_with_embedded_marker", "file_window", "cli_export", "cli_export_over_existing_output", "cli_export_window", "cli_export_interleaved_ecus"],
+            required_landmarks: vec!["export_drops_header_field(WEID/WSID)", "serial_source", "max_size", "stream_with_embedded_marker", "file_window", "cli_export", "cli_export_over_existing_output", "cli_export_window", "cli_export_interleaved_ecus", "ecu_id_with_byte_after_nul"],
         }
     }
     fn prepare(&self, _t: Tier) -> Result<(), String> {
@@ -453,6 +453,46 @@ impl Prop for C02 {
                         done = false;
                         break 'a;
                     }
+                }
+            }
+        }
+        ctx.end_family(done);
+        if !done {
+            return;
+        }
+        // every ECU id over a byte alphabet with NUL in every position (an id is four arbitrary bytes, not a C string):
+        // as the header's ECU id and as the storage header's, both framings, all header-flag sets
+        const IDB: [u8; 4] = [0, b'E', 0x7f, 0xff];
+        ctx.begin_family("ecu_ids", "all 256 ids over {00,'E',7f,ff}^4 as header ECU id x storage ECU {same id, STO1} x 32 flags x 2 framings x apid/ctid {the id, APP1/CTX1}");
+        let mut done = true;
+        'e: for fr in [Framing::Storage, Framing::Serial] {
+            for flags in 0u8..32 {
+                for idn in 0..256usize {
+                    let id = [IDB[idn & 3], IDB[(idn >> 2) & 3], IDB[(idn >> 4) & 3], IDB[(idn >> 6) & 3]];
+                    for same_storage in [true, false] {
+                        for ids_too in [false, true] {
+                            if ctx.mine() {
+                                let mut s = shape(&fr, flags, 2, 0, 5, 2);
+                                s.hdr_ecu = id;
+                                s.storage_ecu = if same_storage { id } else { *b"STO1" };
+                                if ids_too {
+                                    s.apid = id;
+                                    s.ctid = [id[3], id[2], id[1], id[0]];
+                                }
+                                if id[0] == 0 && id[1..].iter().any(|b| *b != 0) || id.iter().position(|b| *b == 0).is_some_and(|z| id[z..].iter().any(|b| *b != 0)) {
+                                    ctx.landmark("ecu_id_with_byte_after_nul");
+                                }
+                                let cj = || spec_json("ecu_ids", &s);
+                                let nt = judge_msg(ctx, &s, &cj);
+                                ctx.eval(nt);
+                                ctx.sample(cj);
+                            }
+                        }
+                    }
+                }
+                if ctx.out_of_time() {
+                    done = false;
+                    break 'e;
                 }
             }
         }
